@@ -27,6 +27,8 @@ def run(prog, chk):
     ]
     chk.decided += ["the CFF glyph box encloses the compiled outline: a box value is only rounded to nearest where the charstring pen rounds the coordinate too (tolerance >= 0.5, or the value within the "
                     "tolerance of its rounding - fontTools' roundFunc), otherwise minima are floored and maxima ceiled; pen and box use the same tolerance (R04.11)"]
+    chk.decided += ["the final glyph names are unique (every name handed out by the production-name step is recorded before the next one is chosen): a duplicate name makes the saved font reload with another "
+                    "glyph list, or merges two glyphs' CFF charstrings (R04.13 = R11.3 = R03.10)"]
     chk.decided += ["OS/2.xAvgCharWidth is derived from the compiled advances: fontTools' recalcAvgCharWidth is run on the font being built, after hmtx exists, and nothing stores the field by hand (R04.12)"]
     chk.not_decided += ["save / reload / re-save byte identity (fontTools)", "glyph bounding box arithmetic (pens)", "values recalculated by fontTools at compile time (maxp for glyf, OS/2 indices)"]
     chk.guard(r041, prog, chk)
@@ -41,6 +43,8 @@ def run(prog, chk):
     chk.guard(r0410, prog, chk)
     chk.guard(r0411, prog, chk)
     chk.guard(r0412, prog, chk)
+    from .c11 import r113
+    chk.guard(r113, prog, chk, "R04.13")
 
 
 # ----------------------------------------------------------------------------- R04.1
@@ -631,6 +635,9 @@ def r0412(prog, chk):
 
 
 MUTANTS = [
+    M("suffixed production names are not recorded as taken (seeded C04m)", "ufo2ft/postProcessor.py", "PostProcessor._unique_name",
+      "if name in seen:\n    n = seen[name]\n    while name + '.%d' % n in seen:\n        n += 1\n    seen[name] = n + 1\n    name += '.%d' % n\nseen[name] = 1\nreturn name",
+      "if name not in seen:\n    seen[name] = 1\n    return name\nn = seen[name]\nwhile name + '.%d' % n in seen:\n    n += 1\nseen[name] = n + 1\nreturn name + '.%d' % n", rule="R04.13"),
     M("average width computed from the unrounded source advances (seeded C04k)", "ufo2ft/outlineCompiler.py", "BaseOutlineCompiler.setupTable_OS2",
       "os2.recalcAvgCharWidth(self.otf)", "widths = [glyph.width for glyph in self.allGlyphs.values() if glyph.width > 0]\nos2.xAvgCharWidth = otRound(sum(widths) / len(widths)) if widths else 0", rule="R04.12"),
     M("OS/2 built before hmtx", "ufo2ft/outlineCompiler.py", "BaseOutlineCompiler.compile",
